@@ -34,6 +34,7 @@ type c09remedy struct {
 	def      string         // allow | block | use_default_allocation | ""
 	defPct10 int
 	rem      config.ScopedRemedy
+	cfg      *sharedConfig.StrategyBasedThrottlingConfig
 }
 
 func ceilDiv(a, b int64) int64 { return (a + b - 1) / b }
@@ -70,11 +71,17 @@ func runC09(s *kernel.Sim) {
 			ga.DefaultAllocationPercentage = float64(r.defPct10) / 10
 			cfg.GroupQuotaAllocation = ga
 		}
+		r.cfg = cfg
 		r.rem = config.ScopedRemedy{Remedy: &sharedConfig.Remedy{Enabled: true, Name: r.name,
 			Config: sharedConfig.RemedyConfig{StrategyBasedThrottling: cfg}}}
 		rems = append(rems, r)
 	}
 	nOps := tp.Range(5, 40)
+	// a policy reload may change the window size of a remedy between two requests
+	changeP := 0
+	if tp.Chance(1, 3) {
+		changeP = tp.Range(1, 3)
+	}
 	burstP := tp.Choose(4)
 	siteOn, density := lockSites(tp)
 	var desc []string
@@ -82,6 +89,7 @@ func runC09(s *kernel.Sim) {
 		desc = append(desc, fmt.Sprintf("%s:allowed=%d,win=%ds,status=%d,grouped=%v,pct=%v,def=%s/%d", r.name, r.allowed, r.winS, r.status, r.grouped, r.pct10, r.def, r.defPct10))
 	}
 	s.Knobs["remedies"], s.Knobs["ops"], s.Knobs["burst"], s.Knobs["lock_sites"] = desc, nOps, burstP, density
+	s.Knobs["window_change_per_10_ops"] = changeP
 
 	cl := clock.NewRealClock()
 	// production wires the identity obfuscator (services.go); MD5 is what the unit tests use
@@ -103,6 +111,28 @@ func runC09(s *kernel.Sim) {
 
 	// reference: passes per (remedy, group, grid window)
 	counts := map[string]int64{}
+	// Window size changes: a counter learns of the new size at the first request of
+	// its group after the change. From then on the new grid applies; what passed
+	// before is not held against the new configuration (no implementation that
+	// keeps a counter could know when it passed). In the grid window that contains
+	// that instant only the bound is judged (an implementation may carry the old
+	// count over), afterwards exactness too.
+	lastW := map[string]int{}
+	epoch := map[string]int{}
+	changeWin := map[string]int64{}
+	// model returns the count key of this request and whether exactness is judged
+	model := func(r *c09remedy, grp string, k int64) (string, bool) {
+		g := r.name + "|" + grp
+		if w, seen := lastW[g]; seen && w != r.winS {
+			epoch[g]++
+			changeWin[g] = k
+			s.FaultFired("window_size_changed_between_requests")
+		} else if !seen {
+			changeWin[g] = -1
+		}
+		lastW[g] = r.winS
+		return fmt.Sprintf("%s|%d|%d", g, epoch[g], k), changeWin[g] != k
+	}
 	type verdict struct {
 		pass   bool
 		status int
@@ -146,6 +176,11 @@ func runC09(s *kernel.Sim) {
 	n := 0
 	for op := 0; op < nOps && !s.Failed(); op++ {
 		r := rems[tp.Choose(len(rems))]
+		if changeP > 0 && tp.Chance(changeP, 10) {
+			r.winS = wins[tp.Choose(len(wins))]
+			r.cfg.WindowSizeInSeconds = r.winS
+			s.Event("window-size", r.name, fmt.Sprint(r.winS))
+		}
 		W := time.Duration(r.winS) * time.Second
 		now := s.Now()
 		nb := (now/W + 1) * W
@@ -190,7 +225,7 @@ func runC09(s *kernel.Sim) {
 			}
 			s.Event("burst", r.name, grp, fmt.Sprintf("n=%d passes=%d", nb, passes))
 			if counted {
-				key := fmt.Sprintf("%s|%s|%d", r.name, grp, k)
+				key, _ := model(r, grp, k)
 				s.Rule("R1")
 				if counts[key]+passes > lim {
 					s.Violate("R1", "window-exceeded-concurrent", "remedy %s group %q grid window %d: %d passed before + %d passed concurrently > limit %d", r.name, grp, k, counts[key], passes, lim)
@@ -225,7 +260,7 @@ func runC09(s *kernel.Sim) {
 			}
 			continue
 		}
-		key := fmt.Sprintf("%s|%s|%d", r.name, grp, k)
+		key, exact := model(r, grp, k)
 		s.Rule("R1")
 		s.Rule("R2")
 		s.State(fmt.Sprintf("%d/%d", counts[key], lim))
@@ -233,7 +268,7 @@ func runC09(s *kernel.Sim) {
 		switch {
 		case v.pass && counts[key] >= lim:
 			s.Violate("R1", "window-exceeded", "remedy %s group %q: request at offset %v of grid window %d (length %v) passed although %d of %d already passed in that window", r.name, grp, off, k, W, counts[key], lim)
-		case !v.pass && counts[key] < lim:
+		case !v.pass && counts[key] < lim && exact:
 			s.Violate("R2", "spurious-rejection", "remedy %s group %q: request at offset %v of grid window %d (length %v) rejected although only %d of %d passed in that window", r.name, grp, off, k, W, counts[key], lim)
 		}
 		if v.pass {
